@@ -349,6 +349,16 @@ func bodyDiscriminants(p *core.Prog, f *core.Fn, n ast.Node, base ast.Expr, type
 			}
 			return names, true
 		}
+		// the if-form: Header.Type == Const
+		if be, ok := ft.Expr.(*ast.BinaryExpr); ok && ft.Truth && be.Op == token.EQL {
+			for _, pair := range [][2]ast.Expr{{be.X, be.Y}, {be.Y, be.X}} {
+				if core.FieldOf(f.Pkg, pair[0]) == typeF {
+					if co := core.ConstObjOf(f.Pkg, pair[1]); co != nil {
+						return []string{co.Name()}, true
+					}
+				}
+			}
+		}
 	}
 	if depth > 1 {
 		return nil, false
